@@ -159,7 +159,7 @@ func (d *distinct) count() int64 {
 // runTree walks every move sequence of length <= depth from every seed on ONE live engine position
 // per shard (do/undo), with the refchess position computed in parallel. fn is called at every node
 // (including the root). Moves are driven by refchess' legal move list.
-func runTree(run *vl.Run, seeds []string, depth int, newUser func() interface{}, fn stateFn) {
+func runTree(run *vl.Run, seeds []string, depth int, newUser func() interface{}, fn stateFn, post ...stateFn) {
 	type job struct {
 		seed string
 		first int // index of first move, -1 = root only
@@ -201,17 +201,22 @@ func runTree(run *vl.Run, seeds []string, depth int, newUser func() interface{},
 				run.Violate("panic:"+firstWords(msg), "panic while checking state: "+msg, w.replayOf(r, nil))
 				return
 			}
-			if d == 0 {
-				return
+			if d > 0 {
+				for _, m := range r.LegalMoves() {
+					em := eng.EngMove(m)
+					lt++
+					w.path = append(w.path, m.String())
+					p.DoMove(em)
+					walk(r.Make(m), d-1)
+					p.UndoMove()
+					w.path = w.path[:len(w.path)-1]
+				}
 			}
-			for _, m := range r.LegalMoves() {
-				em := eng.EngMove(m)
-				lt++
-				w.path = append(w.path, m.String())
-				p.DoMove(em)
-				walk(r.Make(m), d-1)
-				p.UndoMove()
-				w.path = w.path[:len(w.path)-1]
+			for _, pf := range post {
+				msg, pan := vl.Guard(func() { pf(w, p, r) })
+				if pan {
+					run.Violate("panic:"+firstWords(msg), "panic while checking state: "+msg, w.replayOf(r, nil))
+				}
 			}
 		}
 		if j.first < 0 {
